@@ -523,6 +523,16 @@ class Interp:
         recv = self.ev(n["recv"], env)
         if m in ("clone", "as_ref", "as_mut", "as_deref", "to_owned", "borrow", "deref", "by_ref", "copied", "cloned", "into") and not n["args"]:
             return recv
+        if isinstance(recv, tuple) and not isinstance(recv, V) and recv[:1] != ("range",) and "Vec<" in str(n["recv"].get("ty", "")) + str(n.get("callee", "")):
+            # a Vec used as a map key is held as a tuple: read it as a list
+            if m == "get" and len(n["args"]) == 1:
+                i_ = self.ev(n["args"][0], env)
+                if isinstance(i_, int):
+                    return some(recv[i_]) if 0 <= i_ < len(recv) else NONE
+            if m in ("iter", "into_iter") and not n["args"]:
+                return list(recv)
+            if m == "len" and not n["args"]:
+                return len(recv)
         if m in ("to_string", "as_str", "to_lowercase_ascii") and not n["args"] and isinstance(recv, (str, int)) and not isinstance(recv, bool):
             return str(recv)
         if m == "to_string" and not n["args"] and isinstance(recv, bool):
@@ -884,6 +894,41 @@ class Interp:
             if isinstance(i_, int) and 0 <= i_ <= len(recv):
                 recv.insert(i_, v_)
                 return ()
+        if isinstance(recv, list) and len(n["args"]) == 1 and m in ("sort_by", "sort_unstable_by", "sort_by_key", "sort_by_cached_key"):
+            import functools
+            f = self.ev(n["args"][0], env)
+            if m in ("sort_by", "sort_unstable_by"):
+                def cmp(a_, b_):
+                    r = self.apply(f, [a_, b_])
+                    if isinstance(r, V) and r.name.endswith(("Ordering::Less", "Ordering::Equal", "Ordering::Greater")):
+                        return {"Less": -1, "Equal": 0, "Greater": 1}[r.name.rsplit("::", 1)[-1]]
+                    raise Undecided("comparator result %r" % (r,))
+                recv.sort(key=functools.cmp_to_key(cmp))
+            else:
+                keys = [self.apply(f, [x]) for x in recv]
+                if any(isinstance(k_, Opaque) for k_ in keys):
+                    raise Undecided("opaque sort key")
+                order_ = sorted(range(len(recv)), key=lambda i_: keys[i_])
+                recv[:] = [recv[i_] for i_ in order_]
+            return ()
+        if isinstance(recv, list) and not n["args"] and m in ("sort", "sort_unstable"):
+            recv.sort()
+            return ()
+        if m in ("cmp", "partial_cmp") and len(n["args"]) == 1 and isinstance(recv, (int, float, str)) and not isinstance(recv, bool):
+            b_ = self.ev(n["args"][0], env)
+            if type(b_) == type(recv) or (isinstance(b_, (int, float)) and isinstance(recv, (int, float)) and not isinstance(b_, bool)):
+                o = V("Ordering::Less" if recv < b_ else ("Ordering::Greater" if recv > b_ else "Ordering::Equal"))
+                return o if m == "cmp" else some(o)
+        if isinstance(recv, V) and recv.name.endswith(("Ordering::Less", "Ordering::Equal", "Ordering::Greater")):
+            nm = recv.name.rsplit("::", 1)[-1]
+            if m == "reverse" and not n["args"]:
+                return V("Ordering::" + {"Less": "Greater", "Greater": "Less", "Equal": "Equal"}[nm])
+            if m == "then" and len(n["args"]) == 1:
+                return recv if nm != "Equal" else self.ev(n["args"][0], env)
+            if m == "then_with" and len(n["args"]) == 1:
+                return recv if nm != "Equal" else self.apply(self.ev(n["args"][0], env), [])
+            if m in ("is_eq", "is_ne", "is_lt", "is_gt", "is_le", "is_ge") and not n["args"]:
+                return {"is_eq": nm == "Equal", "is_ne": nm != "Equal", "is_lt": nm == "Less", "is_gt": nm == "Greater", "is_le": nm != "Greater", "is_ge": nm != "Less"}[m]
         if isinstance(recv, list) and not n["args"] and m == "pop":
             return some(recv.pop()) if recv else NONE
         if isinstance(recv, list) and not n["args"] and m in ("first", "last", "first_mut", "last_mut"):
@@ -953,6 +998,8 @@ class Interp:
                 tup = x["init"]
                 break
         vals = [self.ev(e, env) for e in tup["es"]] if tup is not None else []
+        # a value with a textual stand-in (a tagged Variant of a scenario) is displayed as that text
+        vals = [v["__variant"] if isinstance(v, dict) and "__variant" in v else (v["string_value"] if isinstance(v, dict) and isinstance(v.get("string_value"), str) and "value_type" in v else v) for v in vals]
         if not all(isinstance(v, (str, int, float)) and not isinstance(v, bool) for v in vals):
             return None
         out, i = "", 0
